@@ -388,6 +388,12 @@ func c03AppHistory(t *testing.T, col *Collector, seed int64, hi int, verbose boo
 				col.Op(kind+"_split", "partly_executed", amt)
 				continue
 			}
+			// integer reserves: after the first piece the pool's reserves are whole numbers and the fee moved out is a whole number of
+			// coins, so the two pieces follow the real-valued formula only up to about 1/reserve: judged on pools of at least 10^6 units
+			if c03BigS(c.Bin).Cmp(big.NewInt(1_000_000)) < 0 || c03BigS(c.Bout).Cmp(big.NewInt(1_000_000)) < 0 {
+				col.Op(kind+"_split", "tiny_pool_not_judged", amt)
+				continue
+			}
 			col.Op(kind+"_split", "ok", amt)
 			col.ImplCheck(1)
 			// the second piece may enjoy a tier discount that the first piece's execution brought about (the tier hook
@@ -403,6 +409,10 @@ func c03AppHistory(t *testing.T, col *Collector, seed int64, hi int, verbose boo
 				sl.Add(sl, new(big.Int).Div(v, big.NewInt(20_000_000))) // three Pow evaluations (two pieces + the one-piece reference), each within 1e-8: 5e-8 in all
 				for _, b := range []string{c.Bin, c.Bout} {
 					sl.Add(sl, new(big.Int).Div(c03BigS(b), new(big.Int).Exp(big.NewInt(10), big.NewInt(17), nil)))
+				}
+				// whole-number reserves between the pieces: relative 4/reserve of the judged amount
+				for _, b := range []string{c.Bin, c.Bout} {
+					sl.Add(sl, new(big.Int).Div(new(big.Int).Mul(v, big.NewInt(4)), c03BigS(b)))
 				}
 				return sl
 			}
